@@ -275,7 +275,17 @@ func (sc *scenario) runZeroRTT() (out *outcome) {
 	sc.tracing = true
 	sc.mu.Unlock()
 	sc.resetCh <- struct{}{} // the delivery goroutine forgets dial 1 (it owns hsDone, nGenuine, genuine)
-	payload := append([]byte("0RTT-PAYLOAD:"), vh.NewRand(sc.seed).Bytes(2400)...)
+	// size class of the early data: a few packets; more than the initial congestion window (part of it is still
+	// queued in the stream / framer, and Write still blocked, when the server's answer arrives); more than the
+	// remembered stream flow-control window
+	psize := 2400
+	switch sc.spec.zsize {
+	case "cwnd":
+		psize = 60000 + int(sc.seed%60000)
+	case "window":
+		psize = 600000 + int(sc.seed%200000)
+	}
+	payload := append([]byte("0RTT-PAYLOAD:"), vh.NewRand(sc.seed).Bytes(psize)...)
 	resend := append([]byte("RESENT-AFTER-REJECT:"), vh.NewRand(sc.seed+1).Bytes(600)...)
 	hsTimeout := 2 * protocol.DefaultHandshakeIdleTimeout
 	out.bound = hsTimeout + time.Second
@@ -307,14 +317,15 @@ func (sc *scenario) runZeroRTT() (out *outcome) {
 			z.early = true
 		}
 		s, err := c2.OpenStream()
+		var sB *quic.Stream // opened during the 0-RTT phase too, kept open, nothing written yet
 		if err == nil {
-			_, werr := s.Write(payload)
+			sB, _ = c2.OpenStream()
+			_, werr := s.Write(payload) // blocks while the early data exceeds what congestion / flow control admit
 			s.Close()
 			z.write = errClass0(werr)
 		} else {
 			z.write = errClass0(err)
 		}
-		sB, _ := c2.OpenStream() // kept open, nothing written yet
 		tm := time.NewTimer(out.bound)
 		select {
 		case <-c2.HandshakeComplete():
@@ -381,6 +392,11 @@ func (sc *scenario) runZeroRTT() (out *outcome) {
 		c2.CloseWithError(0, "")
 	}
 	mu.Lock()
+	if os.Getenv("GATE_DEBUG") != "" {
+		for i, c := range srvConns {
+			fmt.Fprintf(os.Stderr, "debug: server conn %d: cause=%v\n", i, context.Cause(c.Context()))
+		}
+	}
 	z.conns = len(srvConns)
 	// per server connection: how often did the application read the 0-RTT payload / the resent data / anything else.
 	// (The same 0-RTT flight reaching TWO server connections - e.g. after a forged Retry - is replay across
